@@ -348,6 +348,23 @@ Theorem refused_or_blocked_workergroup : forall panics s,
 Proof. intros panics s. split; [exact (wg_no_more_l panics s)|exact (wg_wait_blocked_l panics s)]. Qed.
 Print Assumptions refused_or_blocked_workergroup.
 
+(* Pool scripts may contain [PGetX]: a Get whose create(), if it comes to be called, panics
+   (F34; the repaired Get counts a resource only after create() returned).  [pool_counts],
+   [pool_exclusive], [pool_never_hands_out_expired] and [pool_destroys_only_expired] above are
+   stated for ALL scripts, hence for every placement of panicking create() calls and every
+   schedule: created = idle + held <= limit is an invariant across them - a panicking create()
+   uses up no slot.  Step level: below the limit with nothing idle such a Get ends with the
+   panic (result -2) and leaves every count and the lock as they were. *)
+Theorem pool_create_panic_counts_nothing : forall s t th,
+  nth_error (pthreads s) t = Some th -> pcur th = Some PGetX -> ppcof th = PEnter -> plocked s = false ->
+  pidle s = [] -> pcreated s < plimit s ->
+  exists s', pstep s t = Some s' /\ pcreated s' = pcreated s /\ pidle s' = [] /\ plocked s' = false /\
+             pnext s' = pnext s /\ psig s' = psig s /\
+             nth_error (pthreads s') t =
+             Some (mkPT PIdle (pscript th) (S (popi th)) (pheld th) (pres th ++ [(-2)%Z])).
+Proof. exact pool_create_panic_l. Qed.
+Print Assumptions pool_create_panic_counts_nothing.
+
 (* ------------------------------------------------------------------ *)
 (* non-vacuity *)
 
@@ -465,4 +482,10 @@ Example ex_ctx_cancel :
   let s2 := lexec 1 [[LReq false]; [LCancel 0; LReq false; LReq false]] [0; 1; 1; 0; 1] in
   (linbody s1, lc s1, map lres (lthreads s1), linbody s2, map lres (lthreads s2)) =
   (1, 1, [[]; [1; 0]]%Z, 1, [[1]; [1; 0]]%Z).
+Proof. vm_compute. reflexivity. Qed.
+
+(* limit 1: two Gets whose create() panics, then a Get gets the resource all the same *)
+Example ex_pool_create_panic :
+  let s := pexec 1 0 [[PGetX; PGetX; PGet]] [0;0; 0;0; 0;0;0] in
+  (map pres (pthreads s), pcreated s, map pheld (pthreads s)) = ([[-2; -2; 0]]%Z, 1, [[0]]).
 Proof. vm_compute. reflexivity. Qed.
